@@ -426,8 +426,35 @@ class FactFlow:
         self.fn = fn
         self.kill = kill
         self.gen = gen
+        # bindings "local v currently equals the value expression E had when v was defined, and nothing E reads has
+        # changed since": a branch on v then establishes the facts of a branch on E (bool const queued = f(x);
+        # if (queued) ...).  Must-analysis of its own, computed first.
+        self._bind_trees = {}
+        self._bind_out = {}
+        self._bindings(fn, eh)
         self.before, self.block_in, self.block_out = forward(
             fn, frozenset(), self._transfer, self._edge, lambda a, b: a & b, eh=eh, edge_raw=self._edge_raw)
+
+    def _bindings(self, fn, eh):
+        trees = self._bind_trees
+
+        def tr(st, ev, pos):
+            if st:
+                wp = written_paths(ev)
+                if wp:
+                    st = frozenset(b for b in st if not any(b[0] == p_ or atom_mentions(b[1], p_) for p_ in wp))
+            k = ev.get("k")
+            if k == "decl" and ev.get("init") is not None and re.sub(r"\bconst\b", "", str(ev.get("type", ""))).strip() == "bool":
+                t_ = T(strip(ev["init"]))
+                if t_ not in ("true", "false") and not atom_mentions(t_, ev["var"]):
+                    trees[(ev["var"], t_)] = ev["init"]
+                    st = frozenset(b for b in st if b[0] != ev["var"]) | frozenset([(ev["var"], t_)])
+            return st
+        try:
+            _, _, bout = forward(fn, frozenset(), tr, None, lambda a, b: a & b, eh=eh)
+            self._bind_out = bout
+        except Exception:
+            self._bind_out = {}
 
     def _transfer(self, st, ev, pos):
         if st:
@@ -450,6 +477,15 @@ class FactFlow:
         if cond is None or label not in ("true", "false"):
             return st
         new = implied_facts(cond, label == "true")
+        binds = self._bind_out.get(blk.id) or ()
+        if binds:
+            extra = set()
+            for a, t in new:
+                if re.match(r"^[A-Za-z_]\w*$", a):
+                    for v, txt in binds:
+                        if v == a and (v, txt) in self._bind_trees:
+                            extra |= implied_facts(self._bind_trees[(v, txt)], t)
+            new = set(new) | extra
         atoms = {a for a, _ in new}
         # an assignment inside the condition is already accounted for by _transfer
         return frozenset(f for f in st if f[0] not in atoms) | frozenset(new)
@@ -1015,3 +1051,30 @@ def bypass_path(fn, pred, start=None):
                 prev[t] = b
                 work.append(t)
     return None
+
+
+def expand_locals(fn, tree, depth=4):
+    """Symbolic substitution: replace every local variable that has exactly one definition in fn (a declaration with
+    an initialiser, never written afterwards) by its initialiser, recursively.  'const x = E; return f(x)' then reads
+    like 'return f(E)'.  Sound for reading the value only where E's operands do not change in between - callers use it
+    on small predicate lambdas / straight-line helpers."""
+    import copy as _copy
+    decls = {}
+    written = set()
+    for _, _, e in fn.all_events():
+        if e.get("k") == "decl" and e.get("init") is not None:
+            decls.setdefault(e["var"], []).append(e["init"])
+        elif e.get("k") == "write":
+            written.add(P(e["lhs"]))
+    params = set(p["name"] for p in fn.params)
+
+    def sub(x, d):
+        if isinstance(x, dict):
+            if x.get("k") == "var" and x.get("name") in decls and len(decls[x["name"]]) == 1 and x["name"] not in written and \
+                    x["name"] not in params and d > 0:
+                return sub(_copy.deepcopy(decls[x["name"]][0]), d - 1)
+            return {k: sub(v, d) for k, v in x.items()}
+        if isinstance(x, list):
+            return [sub(v, d) for v in x]
+        return x
+    return sub(tree, depth)
